@@ -770,9 +770,6 @@ FEATURES = [
     ("C12-enum-dict-keys",
      lambda t1, t2, sp, c: sp["enum"] and any(isinstance(k, Enum) for k in all_keys2(t1, t2)),
      both_keys(lambda k: isinstance(k, Enum), lambda k: "enum<%s.%s>" % (type(k).__name__, k.name))),
-    ("C12-enum-none-value",
-     lambda t1, t2, sp, c: sp["enum"] and any(isinstance(a, Enum) and a.value is None for a in all_atoms2(t1, t2)),
-     both(lambda a: None if (isinstance(a, Enum) and a.value is None) else a)),
     ("C12-enum-same-class-members",
      lambda t1, t2, sp, c: sp["enum"] and bool(same_class_pairs(t1, t2, kwargs_of(sp))),
      lambda t1, t2, sp: (lambda cls: (vmap(t1, lambda a: a.value if type(a) in cls else a), vmap(t2, lambda a: a.value if type(a) in cls else a), sp))(
@@ -796,10 +793,6 @@ FEATURES = [
     ("C12-date-key-cleaning-TypeError",
      lambda t1, t2, sp, c: cleaning(sp) and (sp["sig"] is not None or sp["numty"]) and any(_is_dtlike(k) for k in all_keys2(t1, t2)),
      both_keys(lambda k: _is_dtlike(k), lambda k: "dtk<%s %s>" % (type(k).__name__, k))),
-    ("C12-type-groups-not-in-deephash",
-     lambda t1, t2, sp, c: bool(sp.get("groups")),
-     lambda t1, t2, sp: (t1, t2, dict(sp, groups=None, numty=sp["numty"] or sp["groups"] in ("numbers", "intfloat"),
-                                      strty=sp["strty"] or sp["groups"] in ("strings", "strbytes")))),
     ("C12-decimal-exponent",
      lambda t1, t2, sp, c: any(isinstance(a, Decimal) for a in all_atoms2(t1, t2)),
      both(_dec_norm)),
@@ -836,7 +829,6 @@ PREDICTS = {
     "C12-truncate-not-forwarded": lambda h, d, x: (h, d) == ("T", "nonempty") or ((h, d) == ("F", "empty") and bool(x["rep"])),
     "C12-datetime-dict-keys": STRICT,
     "C12-enum-dict-keys": STRICT,
-    "C12-enum-none-value": STRICT,
     "C12-enum-same-class-members": STRICT,
     # the missing type check makes the diff engine more lenient, or makes the comparer of t1's type raise
     "C12-enum-unwrap-skips-type-check": lambda h, d, x: (h, d) == ("F", "empty") or d in ("EXC:AttributeError", "EXC:TypeError"),
@@ -846,7 +838,6 @@ PREDICTS = {
     "C12-timedelta-hash-TypeError": lambda h, d, x: h == "X",
     "C12-truncate-date-timedelta-raises": lambda h, d, x: d in ("EXC:TypeError", "EXC:AttributeError"),
     "C12-date-key-cleaning-TypeError": lambda h, d, x: d == "EXC:TypeError",
-    "C12-type-groups-not-in-deephash": LENIENT,
     "C12-decimal-exponent": LENIENT,
     # the diff engine's shared table hides a difference (lenient); the hash engine's own table can also make the
     # hashes of two different values EQUAL, but only through an alias inside ONE of the two values
@@ -1526,8 +1517,16 @@ def y_theorem_replay(ctx, pairs):
                                                   "what": "two datetimes at a directly compared position: hash_eq=%r diff=%s" % (he, dv)})
             elif sp["enum"] and isinstance(a, Enum) and not (isinstance(b, Enum) and type(b) is type(a)):
                 ub = b.value if isinstance(b, Enum) else b
+                if a.value is None and ub is None:
+                    # Y.C12_enum_none_value_agrees (the edge case as fixed in /repo c9e614d): equal hashes, nothing reported
+                    he, dv = hash_verdict(a, b, kw, rep), diff_verdict(a, b, kw, rep)[0]
+                    ctx.count("theorem_y_enum_none_value_agrees:pairs")
+                    if not (he is True and dv == "empty"):
+                        ctx.break_("correspondence", {"name": "Y.C12_enum_none_value_agrees", "a": lit(a), "b": lit(b), "options": name_of(sp),
+                                                      "what": "a None-valued member facing None: hash_eq=%r diff=%s (the defect fixed in c9e614d is back?)" % (he, dv)})
+                    continue
                 if a.value is None or ub is None:
-                    ctx.count("theorem_y_enum_transfer:hypothesis_false(None-valued)")
+                    ctx.count("theorem_y_enum_transfer:hypothesis_false(exactly one side None-valued)")
                     continue
                 n_en += 1
                 ctx.count("theorem_y_enum_transfer:hypotheses_hold")
@@ -1546,6 +1545,26 @@ def y_theorem_replay(ctx, pairs):
              "pairs, on the %d with same-typed values the property for the pair == the property for the unwrapped values" % (n_dt, n_en, n_en_same))
 
 
+def none_member_faces_none(t1, t2):
+    """a None-valued Enum member facing None / a None-valued member at a directly compared position (the branch of _diff
+    changed by the /repo fix c9e614d)"""
+    def nonelike(x):
+        return x is None or (isinstance(x, Enum) and x.value is None)
+    if isinstance(t1, dict) and isinstance(t2, dict):
+        return any(none_member_faces_none(x, y) for x in t1.values() for y in t2.values())      # key cleaning may cross keys
+    return nonelike(t1) and nonelike(t2) and (isinstance(t1, Enum) or isinstance(t2, Enum)) and t1 is not t2
+
+
+def ymodel_follows_c9e614d(ctx):
+    """Is the diff-side model of the Options block (YModel.leaf_core, not a file of this block) already the FIXED behaviour of
+    /repo c9e614d?  Probed in Coq at every run, so that the cases of that branch enter the correspondence by themselves as soon
+    as the imported model follows the fix (until then they are checked by the direct oracle and the witness replay only)."""
+    txt = ctx.coq_eval("c12y_probe_c9e614d", YHEADER, "run_c12y_flags [probe_none_member_fixed]")
+    ok = (txt or "").strip() == "T"
+    ctx.note("options_model_follows_fix_c9e614d", ok)
+    return ok
+
+
 def _ytask(args):
     t1l, t2l, sp, rep = args
     t1, t2 = unlit(t1l), unlit(t2l)
@@ -1560,6 +1579,7 @@ def y_stream(ctx, pool, pairs, label="ymodel"):
     args = [(lit(t1), lit(t2), sp, rep) for _f, t1, t2, sp, rep in pairs]
     res = pool.map(_ytask, args, chunksize=8)
     cases, hyp = [], []
+    follows = ymodel_follows_c9e614d(ctx)
     for (fam, a, b, _sp, _r), (t1l, t2l, sp, rep, he, dv, alias) in zip(pairs, res):
         nm = name_of(sp)
         ok = agree(he, dv)
@@ -1577,6 +1597,9 @@ def y_stream(ctx, pool, pairs, label="ymodel"):
             ctx.count("attributed:%s:hash_%s/diff_%s" % (att[0] if (att and r == "known") else r, pattern(case)[0], pattern(case)[1]))
         if alias:
             ctx.count("%s:outside(memo alias)" % label)
+            continue
+        if sp["enum"] and not follows and none_member_faces_none(a, b):
+            ctx.count("%s:outside(None-valued member facing None: Options/YModel.v does not follow the fix c9e614d yet)" % label)
             continue
         if dv.startswith("EXC:") and dv not in ("EXC:TypeError", "EXC:ValueError", "EXC:AttributeError"):
             ctx.count("%s:outside(exception %s)" % (label, dv[4:]))
@@ -1654,7 +1677,12 @@ def evaluate(ctx, pool, jobs, label):
         ctx.count("%s:options:%s" % (label, nm))
         ctx.count("%s:rep" % label if rep else "%s:norep" % label)
         ctx.count("%s:verdicts:hash_%s/diff_%s" % (label, {True: "eq", False: "ne"}.get(he, "exc"), dv.replace("EXC:", "exc_")))
-        if ok is None:
+        if sp.get("groups"):
+            # ignore_type_in_groups is OUTSIDE the property's wording (the property names the two flag options): recorded as an
+            # observation - DeepHash uses the groups for custom objects only, DeepDiff for numbers and strings too (NOTES) - never a failure
+            ctx.count("observation(outside the property):ignore_type_in_groups:%s" % ("engines_agree" if ok is not False else
+                                                                                       "engines_disagree:hash_%s/diff_%s" % pattern(case)))
+        elif ok is None:
             ctx.count("%s:both_engines_raise" % label)
         elif ok is False:
             r = ctx.fail(case, describe(he, dv) + " [options: %s, report_repetition=%s]" % (nm, rep))
@@ -1840,9 +1868,12 @@ WITNESSES = [
     ("Y.C12_datetime_dict_keys_refuted", {C11._dt(2024, 1, 1, 10, 20, 30, 0): 1}, {C11._dt(2024, 1, 1, 8, 20, 30, 0, 0): 1}, _s(tz=120), False, (True, "nonempty")),
     ("Y.C12_datetime_dict_keys_refuted(as values)", {"k": C11._dt(2024, 1, 1, 10, 20, 30, 0)}, {"k": C11._dt(2024, 1, 1, 8, 20, 30, 0, 0)}, _s(tz=120), False, (True, "empty")),
     ("Y.C12_enum_dict_keys_refuted", {E.A: 1}, {1: 1}, _s(enum=True), False, (True, "nonempty")),
-    ("Y.C12_enum_none_value_refuted", E4.N, None, _s(enum=True), False, (True, "nonempty")),
-    ("Y.C12_enum_none_value_refuted(dict value)", {"k": E4.N}, {"k": None}, _s(enum=True), False, (True, "nonempty")),
-    ("Y.C12_enum_none_value_refuted(same member)", {"k": E4.N}, {"k": E4.N}, _s(enum=True), False, (True, "empty")),
+    # Y.C12_enum_none_value_fixed / Y.C12_enum_none_value_agrees: the behaviour after the /repo fix c9e614d (a return of the defect is reported here)
+    ("C12-enum-none-value fixed (c9e614d): None-valued member facing None", E4.N, None, _s(enum=True), False, (True, "empty")),
+    ("C12-enum-none-value fixed (c9e614d): as dict values", {"k": E4.N}, {"k": None}, _s(enum=True), False, (True, "empty")),
+    ("C12-enum-none-value fixed (c9e614d): None first", {"k": None}, {"k": E4.N}, _s(enum=True, case=True), True, (True, "empty")),
+    ("C12-enum-none-value fixed (c9e614d): the same member", {"k": E4.N}, {"k": E4.N}, _s(enum=True), False, (True, "empty")),
+    ("C12-enum-none-value fixed (c9e614d): a None-valued member facing a value is still a change", {"k": E4.N}, {"k": "x"}, _s(enum=True), False, (False, "nonempty")),
     ("Y.C12_enum_same_class_refuted", E.B, E.D, _s(enum=True, case=True), False, (True, "nonempty")),
     ("Y.C12_enum_unwrap_skips_type_check_refuted", E.A, 1.0, _s(enum=True), False, (False, "empty")),
     ("Y.C12_timedelta_hash_refuted", datetime.timedelta(seconds=5), datetime.timedelta(seconds=5), _s(sig=0), False, ("EXC:TypeError", "empty")),
@@ -1946,7 +1977,7 @@ def run(ctx):
         sp = dspecs[i % len(dspecs)]
         t1, t2, _log = gen_dt_zones(rng, sp)
         rich.append(("dtzone", t1, t2, sp, rng.random() < 0.5, False))
-    # ignore_type_in_groups: the general spelling of the type-ignoring options, alone and combined
+    # ignore_type_in_groups: the general spelling of the type-ignoring options, alone and combined - an OBSERVATION stream (outside the property's wording)
     gspecs = [dict(mk(), groups=g) for g in ("numbers", "strings", "intfloat", "strbytes")] + \
         [dict(mk(case=True), groups="strings"), dict(mk(sig=1), groups="numbers"), dict(mk(enum=True), groups="intfloat"), dict(mk(strty=True), groups="numbers")]
     for i in range(320 if ctx.thorough else 64):
